@@ -43,3 +43,19 @@ Theorem C02_failure_is_identity : forall (H : bytes -> bytes) (chain : bytes) s 
   fst (snd (bk_step H chain s o)) <> 0 -> fst (bk_step H chain s o) = s.
 Proof. exact failure_is_identity. Qed.
 Print Assumptions C02_failure_is_identity.
+
+(* the signed document binds the whole context: chain, sequence, epoch, action, proposer, payload.  Two
+   contexts sign the same document only if they are equal, or the hash collides on two different
+   concatenations (exhibited); chain identifiers of which one is a proper prefix of the other are excluded
+   (the fields are concatenated without separators); method names are the regenerated c_methods, proved
+   prefix-free; proposer addresses of one chain have one length. *)
+From Goat Require Import Proofs.SignDoc Model.Bridge.
+Theorem C02_sign_doc_binds : forall (H : bytes -> bytes) c s e m p d c' s' e' m' p' d',
+  ~ proper_prefix c c' -> ~ proper_prefix c' c ->
+  (s < two64)%N -> (s' < two64)%N -> (e < two64)%N -> (e' < two64)%N ->
+  In m method_bytes -> In m' method_bytes -> length p = length p' ->
+  vote_sign_doc H c m p s e d = vote_sign_doc H c' m' p' s' e' d' ->
+  (c = c' /\ s = s' /\ e = e' /\ m = m' /\ p = p' /\ d = d') \/
+  (exists x y, x <> y /\ H x = H y).
+Proof. exact sign_doc_binds. Qed.
+Print Assumptions C02_sign_doc_binds.
